@@ -240,7 +240,8 @@ type monitor struct {
 	hits int
 }
 
-// checkCounters: activeCount = |{active}|, list/status consistency, hasPeer <=> activeCount > 0.
+// checkCounters: activeCount = |{active}| ("counts peers correctly"). List layout and the hasPeer flag are internal:
+// differences there are conformance drift unless they surface as a wrong hand-out or a waiter that is not woken.
 func (mo *monitor) checkCounters(rpool MPool, replay any) {
 	n := 0
 	for _, s := range rpool.St {
@@ -252,24 +253,6 @@ func (mo *monitor) checkCounters(rpool MPool, replay any) {
 		mo.hits++
 		mo.rep.Violate("C17/pool/active-count-differs-from-active-peers",
 			fmt.Sprintf("%s: activeCount=%d but %d peers have status active (statuses=%v)", mo.ctx, rpool.Ac, n, rpool.St), replay)
-	}
-	seen := map[string]bool{}
-	for _, p := range rpool.List {
-		if seen[p] {
-			mo.hits++
-			mo.rep.Violate("C17/pool/peer-twice-in-list", fmt.Sprintf("%s: %s twice in peersList %v", mo.ctx, p, rpool.List), replay)
-		}
-		seen[p] = true
-	}
-	for p, s := range rpool.St {
-		if !seen[p] && s != "removed" {
-			mo.hits++
-			mo.rep.Violate("C17/pool/live-peer-missing-from-list", fmt.Sprintf("%s: %s has status %s but is not in peersList %v", mo.ctx, p, s, rpool.List), replay)
-		}
-	}
-	if rpool.Hp != (rpool.Ac > 0) {
-		mo.hits++
-		mo.rep.Violate("C17/pool/hasPeer-flag-wrong", fmt.Sprintf("%s: hasPeer=%v with activeCount=%d", mo.ctx, rpool.Hp, rpool.Ac), replay)
 	}
 }
 
@@ -300,6 +283,32 @@ func (mo *monitor) probe(rp *realPool, replay any) {
 		pre, _ = rp.snapshot()
 	}
 	mo.checkCounters(pre, replay)
+}
+
+// probeWaiters: with an active peer in the pool, every goroutine that waits inside next() (live context) must
+// wake up and ask again. The harness is quiescent: nothing else runs.
+func (mo *monitor) probeWaiters(rp *realPool, replay any) {
+	s := rp.sched
+	pre, _ := rp.snapshot()
+	if pre.Ac == 0 {
+		return
+	}
+	s.mu.Lock()
+	var waiting []string
+	for n, g := range s.byName {
+		if !g.isTimer && !g.done && g.cancel != nil && !g.parked {
+			waiting = append(waiting, n)
+		}
+	}
+	s.mu.Unlock()
+	for _, n := range waiting {
+		if r := s.waitParked(n, map[string]bool{"tryGet.enter": true}, wakeWatchdog); r == resBlocked {
+			notWoken.Add(1)
+			mo.hits++
+			mo.rep.Violate("C17/pool/waiter-not-woken", fmt.Sprintf("%s: a caller blocked in next() with a live context was not woken within %s although activeCount=%d (harness quiescent)",
+				mo.ctx, wakeWatchdog, pre.Ac), replay)
+		}
+	}
 }
 
 // ---- atomic path replay -------------------------------------------------------------------------
@@ -349,6 +358,7 @@ func replayAtomicPath(rep *vh.Report, mo *monitor, ttl, cleanup int, slots []str
 		res.at = i
 		if !hungAny {
 			// the code left the model: make a wrong internal state observable through the API
+			mo.probeWaiters(rp, replayObj)
 			mo.probe(rp, replayObj)
 		}
 		return res
